@@ -9,8 +9,13 @@ class FicklingContextManager:
     def __init__(self, max_acceptable_severity=Severity.LIKELY_SAFE):
         self.original_pickle_load = pickle.load
         self.max_acceptable_severity = max_acceptable_severity
+        self._saved_loads = []
 
     def __enter__(self):
+        # remember what is bound when the block is *entered* (a manager created before another
+        # protection was armed must not drop that protection when the block is left); a stack,
+        # so that re-entering the same manager restores level by level
+        self._saved_loads.append(pickle.load)
         # Modify the `hook_pickle_load` function to use the imported loader
         wrapped_load = lambda file, *args, **kwargs: loader.load(  # noqa
             file, max_acceptable_severity=self.max_acceptable_severity
@@ -19,7 +24,10 @@ class FicklingContextManager:
         return self
 
     def __exit__(self, exc_type, exc_val, exc_tb):
-        pickle.load = self.original_pickle_load
+        if self._saved_loads:
+            pickle.load = self._saved_loads.pop()
+        else:
+            pickle.load = self.original_pickle_load
 
 
 def check_safety():
